@@ -163,6 +163,11 @@ class ExprBinModel(ExprModel):
         return ret        
 
     def is_signed(self):
+        if self.op in (BinExprType.Eq, BinExprType.Ne, BinExprType.Gt,
+                       BinExprType.Ge, BinExprType.Lt, BinExprType.Le):
+            # The result of a comparison is a single unsigned bit, 
+            # whatever the signedness of the operands compared
+            return False
         return (self.lhs.is_signed() and self.rhs.is_signed())
     
     def width(self):
